@@ -734,8 +734,12 @@ Section Preserve.
     Legal m (s_cfg s1).
   Proof.
     intros d HL Hex Ht Hth Hd HdC.
+    assert (Hne : tgt <> 0).
+    { intros ->. assert (H0 : 0 < size m) by lia. rewrite (ancestors_unfold m Hwf 0 H0) in Hd.
+      destruct (parent m 0) as [q|] eqn:Hq; [|destruct Hd]. destruct (parent_props m Hwf 0 q H0 Hq). lia. }
     pose proof (external_effect m eng pr t tgt ev s0 s1 Hex) as Heff. cbv zeta in Heff. fold d in Heff. rewrite Hth in Heff.
     rewrite entered_nil in Heff. unfold add_all at 1 in Heff. cbn [fold_left] in Heff.
+    rewrite (ext_exit_set_nonroot m _ _ d tgt Hne), (ext_path_nonroot m tgt d Hne) in Heff.
     rewrite (exit_set_h_plain m (s_cfg s0) (s_hist s0) d tgt Hth) in Heff.
     rewrite Heff. now apply formula_legal.
   Qed.
